@@ -842,7 +842,18 @@ func runE2E(in map[string]any) string {
 	report["proxiedConnections"] = proxied
 	pmu.Unlock()
 	report["runMs"] = time.Since(started).Milliseconds()
-	time.Sleep(100 * time.Millisecond)
+	stopReturned := time.Since(o.t0).Nanoseconds()
+	// whatever the crawler still does after Stop() returned shows up now (late requests, a crash of a leftover goroutine)
+	time.Sleep(time.Duration(num(stop, "afterStopMs", 100)) * time.Millisecond)
+	late := 0
+	o.mu.Lock()
+	for _, q := range o.log {
+		if q.T > stopReturned {
+			late++
+		}
+	}
+	o.mu.Unlock()
+	report["requestsAfterStop"] = late
 	report["footprintAfterStop"] = map[string]any{"goroutines": runtime.NumGoroutine(), "fds": countFDs(), "g0": g0}
 	o.mu.Lock()
 	report["requests"] = o.log
